@@ -789,7 +789,10 @@ func (ex *Exec) execBlock(f *frame, st *State, b *ssa.BasicBlock, from *ssa.Basi
 	}
 	if li := f.loops[b]; li != nil {
 		ls := f.loopSpec(li)
-		if ls != nil && ls.Unroll || f.ex.prog.forceUnroll[f.key] || ex.initMode || (ex.relMode && f.concreteRange(st, li)) {
+		// a range loop over a table of known small length is executed, not cut, unless the contract
+		// gives it an invariant: exact, and it keeps working when the loop moves into a helper
+		autoUnroll := (ls == nil || len(ls.Invariants) == 0 && len(ls.Decreases) == 0) && f.concreteRangeMax(st, li, 12)
+		if ls != nil && ls.Unroll || f.ex.prog.forceUnroll[f.key] || ex.initMode || (ex.relMode && f.concreteRange(st, li)) || autoUnroll {
 			st.iters[b]++
 			if st.iters[b] > 4 && !ex.initMode && !ex.feasible(st) {
 				// the unrolled path has become infeasible: prune it
